@@ -1083,4 +1083,541 @@ theorem decodeVariant_hasTy : ∀ (vars : List (List Ty)) (d : Nat) (s : List Na
 end
 
 
+/-! ### totality: no panic on canonical sequences shorter than `2^32` (types without zero-width items) -/
+
+/-- what a decoder can be handed: canonical elements, fewer than `2^32` of them -/
+def Good (s : List Nat) : Prop := Canon s ∧ s.length < 2^32
+
+theorem Good.take {s : List Nat} (h : Good s) (k : Nat) : Good (s.take k) :=
+  ⟨h.1.take k, by have := h.2; simp only [List.length_take]; omega⟩
+theorem Good.drop {s : List Nat} (h : Good s) (k : Nat) : Good (s.drop k) :=
+  ⟨h.1.drop k, by have := h.2; simp only [List.length_drop]; omega⟩
+theorem Good.tail {a : Nat} {s : List Nat} (h : Good (a :: s)) : Good s :=
+  ⟨h.1.tail, by have := h.2; simp only [List.length_cons] at this; omega⟩
+theorem Good.of_append_right {a b : List Nat} (h : Good (a ++ b)) : Good b :=
+  ⟨h.1.of_append_right, by have := h.2; simp only [List.length_append] at this; omega⟩
+
+theorem P_val : P = 18446744069414584321 := rfl
+
+theorem decodeChunks_ne_panic (dec : List Nat → Outcome Val) (w : Nat)
+    (hdec : ∀ c, Good c → dec c ≠ .panic) :
+    ∀ (n : Nat) (s : List Nat), Good s → decodeChunks dec w n s ≠ .panic
+  | 0, s, _ => by simp [decodeChunks]
+  | n + 1, s, hg => by
+    simp only [decodeChunks]
+    have h1 := hdec _ (hg.take w)
+    have ih := decodeChunks_ne_panic dec w hdec n (s.drop w) (hg.drop w)
+    split
+    · split <;> simp_all
+    · simp
+    · simp_all
+
+theorem decodeDyn_ne_panic (dec : List Nat → Outcome Val) (hdec : ∀ c, Good c → dec c ≠ .panic) :
+    ∀ (n idx : Nat) (s : List Nat), Good s → idx + s.length < 2^32 → decodeDyn dec n idx s ≠ .panic
+  | 0, idx, s, _, _ => by simp [decodeDyn]
+  | n + 1, idx, s, hg, hi => by
+    cases s with
+    | nil => simp [decodeDyn]
+    | cons len rest =>
+      simp only [decodeDyn]
+      have hlen := hg.1.head
+      rw [P_val] at hlen
+      simp only [List.length_cons] at hi
+      rw [if_neg (by omega)]
+      split
+      · simp
+      · rename_i hl
+        have h1 := hdec _ (hg.tail.take len)
+        have ih := decodeDyn_ne_panic dec hdec n (idx + 1 + len) (rest.drop len) (hg.tail.drop len)
+          (by simp only [List.length_drop]; omega)
+        split
+        · split <;> simp_all
+        · simp
+        · simp_all
+
+theorem decodeList_ne_panic (dec : List Nat → Outcome Val) (sl : Option Nat) (hdec : ∀ c, Good c → dec c ≠ .panic)
+    (hsl : sl ≠ some 0) (n : Nat) (s : List Nat) (hg : Good s) : decodeList dec sl n s ≠ .panic := by
+  unfold decodeList
+  cases sl with
+  | some w =>
+    simp only
+    have hw : w ≠ 0 := fun h => hsl (by rw [h])
+    have := decodeChunks_ne_panic dec w hdec n s hg
+    split; · simp
+    split; · simp
+    split; · simp
+    first | exact this | (rw [if_neg hw]; exact this)
+  | none =>
+    simp only
+    have := decodeDyn_ne_panic dec hdec n 0 s hg (by have := hg.2; omega)
+    split <;> simp_all
+
+theorem decodeVec_ne_panic (dec : List Nat → Outcome Val) (sl : Option Nat) (hdec : ∀ c, Good c → dec c ≠ .panic)
+    (hsl : sl ≠ some 0) (s : List Nat) (hg : Good s) : decodeVec dec sl s ≠ .panic := by
+  cases s with
+  | nil => simp [decodeVec]
+  | cons n rest => exact decodeList_ne_panic dec sl hdec hsl n rest hg.tail
+
+theorem decodeItem_ne_panic (dec : List Nat → Outcome Val) (sl : Option Nat) (hdec : ∀ c, Good c → dec c ≠ .panic)
+    (s : List Nat) (hg : Good s) : decodeItem dec sl s ≠ .panic := by
+  unfold decodeItem
+  cases sl with
+  | some w =>
+    simp only
+    have := hdec _ (hg.take w)
+    split; · simp
+    split <;> simp_all
+  | none =>
+    cases s with
+    | nil => simp
+    | cons len rest =>
+      simp only
+      have := hdec _ (hg.tail.take len)
+      split; · simp
+      split <;> simp_all
+
+theorem decodeSmall_ne_panic (b : Nat) (s : List Nat) : decodeSmall b s ≠ .panic := by
+  unfold decodeSmall; split; · simp
+  · split <;> simp
+  · simp
+theorem decodeLimbs_ne_panic (k : Nat) (s : List Nat) : decodeLimbs k s ≠ .panic := by
+  unfold decodeLimbs; split; · simp
+  split; · simp
+  split; · simp
+  split <;> simp
+theorem decodeU32Limbs_ne_panic : ∀ s : List Nat, decodeU32Limbs s ≠ .panic
+  | [] => by simp [decodeU32Limbs]
+  | x :: xs => by
+    have := decodeU32Limbs_ne_panic xs
+    simp only [decodeU32Limbs]
+    split
+    · split <;> simp_all
+    · simp
+theorem finishFields_ne_panic {r : Outcome (List Val × List Nat)} (h : r ≠ .panic) : finishFields r ≠ .panic := by
+  unfold finishFields; split <;> simp_all
+
+mutual
+theorem decode_ne_panic : ∀ (t : Ty) (s : List Nat), noZW t = true → Good s → decode t s ≠ .panic
+  | .bfe, s, _, _ => by simp only [decode]; split <;> simp
+  | .u8, s, _, _ => by simp only [decode]; exact decodeSmall_ne_panic _ s
+  | .u16, s, _, _ => by simp only [decode]; exact decodeSmall_ne_panic _ s
+  | .u32, s, _, _ => by simp only [decode]; exact decodeSmall_ne_panic _ s
+  | .bool, s, _, _ => by simp only [decode]; exact decodeSmall_ne_panic _ s
+  | .u64, s, _, _ => by simp only [decode]; exact decodeLimbs_ne_panic _ s
+  | .u128, s, _, _ => by simp only [decode]; exact decodeLimbs_ne_panic _ s
+  | .phantom, s, _, _ => by simp only [decode]; split <;> simp
+  | .box t, s, hz, hg => by
+    simp only [noZW] at hz; simp only [decode]; exact decode_ne_panic t s hz hg
+  | .option t, s, hz, hg => by
+    simp only [noZW] at hz
+    cases s with
+    | nil => simp [decode]
+    | cons tag rest =>
+      simp only [decode]
+      have := decode_ne_panic t rest hz hg.tail
+      split
+      · split <;> simp
+      · split
+        · split <;> simp_all
+        · simp
+  | .vec t, s, hz, hg => by
+    simp only [noZW, Bool.and_eq_true, bne_iff_ne, ne_eq] at hz
+    simp only [decode, ne_eq, Outcome.map_eq_panic]
+    exact decodeVec_ne_panic _ _ (fun c hc => decode_ne_panic t c hz.1 hc) hz.2 s hg
+  | .array n t, s, hz, hg => by
+    simp only [noZW, Bool.and_eq_true, bne_iff_ne, ne_eq] at hz
+    simp only [decode]
+    split
+    · simp
+    · simp only [ne_eq, Outcome.map_eq_panic]
+      exact decodeList_ne_panic _ _ (fun c hc => decode_ne_panic t c hz.1 hc) hz.2 n s hg
+  | .tuple ts, s, hz, hg => by
+    simp only [noZW] at hz
+    simp only [decode, ne_eq, Outcome.map_eq_panic]
+    exact finishFields_ne_panic (decodeFields_ne_panic ts s hz hg)
+  | .struct ts, s, hz, hg => by
+    simp only [noZW] at hz
+    simp only [decode, ne_eq, Outcome.map_eq_panic]
+    exact finishFields_ne_panic (decodeFields_ne_panic ts s hz hg)
+  | .poly t, s, hz, hg => by
+    simp only [noZW, Bool.and_eq_true, bne_iff_ne, ne_eq] at hz
+    cases s with
+    | nil => simp [decode]
+    | cons ind rest =>
+      simp only [decode]
+      have := decodeVec_ne_panic _ _ (fun c hc => decode_ne_panic t c hz.1 hc) hz.2 rest hg.tail
+      split; · simp
+      split; · simp
+      split
+      · split <;> simp
+      · simp
+      · simp_all
+  | .u32s n, s, _, _ => by
+    simp only [decode]
+    split; · simp
+    split; · simp
+    split; · simp
+    simp only [ne_eq, Outcome.map_eq_panic]
+    exact decodeU32Limbs_ne_panic s
+  | .enum vars, s, hz, hg => by
+    simp only [noZW] at hz
+    cases s with
+    | nil => simp [decode]
+    | cons d rest =>
+      simp only [decode, ne_eq, Outcome.map_eq_panic]
+      exact decodeVariant_ne_panic vars d rest hz hg.tail
+theorem decodeFields_ne_panic : ∀ (ts : List Ty) (s : List Nat), noZWs ts = true → Good s →
+    decodeFields ts s ≠ .panic
+  | [], s, _, _ => by simp [decodeFields]
+  | t :: ts, s, hz, hg => by
+    simp only [noZWs, Bool.and_eq_true] at hz
+    simp only [decodeFields]
+    have ih := decodeFields_ne_panic ts s hz.2 hg
+    split
+    · rename_i vs s' hfs
+      have hs' : Good s' := by
+        have := encodeFields_decodeFields ts s vs s' hfs
+        rw [← this] at hg
+        exact hg.of_append_right
+      have := decodeItem_ne_panic _ (staticLength t) (fun c hc => decode_ne_panic t c hz.1 hc) s' hs'
+      split <;> simp_all
+    · simp
+    · simp_all
+theorem decodeVariant_ne_panic : ∀ (vars : List (List Ty)) (d : Nat) (s : List Nat), noZWss vars = true → Good s →
+    decodeVariant vars d s ≠ .panic
+  | [], d, s, _, _ => by simp [decodeVariant]
+  | fs :: rest, d, s, hz, hg => by
+    simp only [noZWss, Bool.and_eq_true] at hz
+    cases d with
+    | zero =>
+      simp only [decodeVariant]
+      exact finishFields_ne_panic (decodeFields_ne_panic fs s hz.1 hg)
+    | succ d =>
+      simp only [decodeVariant]
+      exact decodeVariant_ne_panic rest d s hz.2 hg
+end
+
+
+/-! ### resource bound: the decoded value is at most linear in the sequence length -/
+
+theorem size_step {a K L M : Nat} (h : a ≤ K * L) (hL : L ≤ M) (hM : 1 ≤ M) : 1 + a ≤ (1 + K) * M := by
+  have := Nat.mul_le_mul_left K hL
+  rw [Nat.add_mul]; omega
+
+theorem decodeChunks_size (dec : List Nat → Outcome Val) (w K : Nat) (hw : 0 < w)
+    (hdec : ∀ c v, dec c = .ok v → v.size ≤ K * max 1 c.length) :
+    ∀ (n : Nat) (s : List Nat) (vs : List Val), decodeChunks dec w n s = .ok vs → s.length = n * w →
+      Val.sizes vs ≤ K * s.length
+  | 0, s, vs, h, _ => by simp [decodeChunks] at h; subst h; simp [Val.sizes]
+  | n + 1, s, vs, h, hl => by
+    simp only [decodeChunks] at h
+    split at h
+    · rename_i v hv
+      split at h
+      · rename_i vs' hvs
+        simp only [Outcome.ok.injEq] at h
+        subst h
+        have hlw : w ≤ s.length := by rw [hl, Nat.add_mul]; omega
+        have ih := decodeChunks_size dec w K hw hdec n (s.drop w) vs' hvs (by
+          simp only [List.length_drop, hl, Nat.add_mul]; omega)
+        have h1 := hdec _ _ hv
+        have e1 : max 1 (List.take w s).length = w := by simp only [List.length_take]; omega
+        rw [e1] at h1
+        simp only [List.length_drop] at ih
+        obtain ⟨L, hL⟩ : ∃ L, s.length = w + L := ⟨s.length - w, by omega⟩
+        rw [hL] at ih ⊢
+        rw [show w + L - w = L by omega] at ih
+        rw [Nat.mul_add]
+        simp only [Val.sizes]; omega
+      · simp at h
+      · simp at h
+    · simp at h
+    · simp at h
+
+theorem decodeDyn_size (dec : List Nat → Outcome Val) (K : Nat)
+    (hdec : ∀ c v, dec c = .ok v → v.size ≤ K * max 1 c.length) :
+    ∀ (n idx : Nat) (s : List Nat) (vs : List Val) (r : List Nat), decodeDyn dec n idx s = .ok (vs, r) →
+      Val.sizes vs + K * r.length ≤ K * s.length
+  | 0, idx, s, vs, r, h => by
+    simp only [decodeDyn, Outcome.ok.injEq, Prod.mk.injEq] at h
+    obtain ⟨rfl, rfl⟩ := h
+    simp [Val.sizes]
+  | n + 1, idx, s, vs, r, h => by
+    cases s with
+    | nil => simp [decodeDyn] at h
+    | cons len rest =>
+      simp only [decodeDyn] at h
+      split at h
+      · simp at h
+      · split at h
+        · simp at h
+        · rename_i hlen
+          split at h
+          · rename_i v hv
+            split at h
+            · rename_i vs' r' hvs
+              simp only [Outcome.ok.injEq, Prod.mk.injEq] at h
+              obtain ⟨rfl, rfl⟩ := h
+              have ih := decodeDyn_size dec K hdec n _ _ vs' r' hvs
+              have h1 := hdec _ _ hv
+              have e1 : (List.take len rest).length = len := by simp only [List.length_take]; omega
+              rw [e1] at h1
+              have h2 : K * max 1 len ≤ K * (1 + len) := Nat.mul_le_mul_left K (by omega)
+              simp only [List.length_drop] at ih
+              obtain ⟨L, hL⟩ : ∃ L, rest.length = len + L := ⟨rest.length - len, by omega⟩
+              rw [hL] at ih
+              rw [show len + L - len = L by omega] at ih
+              simp only [List.length_cons, hL, Val.sizes]
+              rw [show len + L + 1 = (1 + len) + L by omega, Nat.mul_add]
+              omega
+            · simp at h
+            · simp at h
+          · simp at h
+          · simp at h
+
+theorem decodeList_size (dec : List Nat → Outcome Val) (sl : Option Nat) (K : Nat)
+    (hdec : ∀ c v, dec c = .ok v → v.size ≤ K * max 1 c.length) (n : Nat) (s : List Nat) (vs : List Val)
+    (h : decodeList dec sl n s = .ok vs) : Val.sizes vs ≤ K * s.length := by
+  unfold decodeList at h
+  cases sl with
+  | some w =>
+    simp only at h
+    split at h
+    · simp at h
+    · split at h
+      · simp at h
+      · split at h
+        · simp at h
+        · split at h
+          · simp at h
+          · exact decodeChunks_size dec w K (by omega) hdec n s vs h (by omega)
+  | none =>
+    simp only at h
+    split at h
+    · rename_i vs' hd
+      simp only [Outcome.ok.injEq] at h
+      subst h
+      have := decodeDyn_size dec K hdec n 0 s _ _ hd
+      omega
+    · simp at h
+    · simp at h
+    · simp at h
+
+theorem decodeVec_size (dec : List Nat → Outcome Val) (sl : Option Nat) (K : Nat)
+    (hdec : ∀ c v, dec c = .ok v → v.size ≤ K * max 1 c.length) (s : List Nat) (vs : List Val)
+    (h : decodeVec dec sl s = .ok vs) : Val.sizes vs ≤ K * s.length := by
+  cases s with
+  | nil => simp [decodeVec] at h
+  | cons n rest =>
+    have := decodeList_size dec sl K hdec n rest vs h
+    have h2 : K * rest.length ≤ K * (n :: rest).length := Nat.mul_le_mul_left K (by simp)
+    omega
+
+theorem decodeItem_size (dec : List Nat → Outcome Val) (sl : Option Nat) (K : Nat)
+    (hdec : ∀ c v, dec c = .ok v → v.size ≤ K * max 1 c.length) (s : List Nat) (v : Val) (r : List Nat)
+    (h : decodeItem dec sl s = .ok (v, r)) : v.size ≤ K * max 1 s.length ∧ r.length ≤ s.length := by
+  unfold decodeItem at h
+  cases sl with
+  | some w =>
+    simp only at h
+    split at h
+    · simp at h
+    · split at h
+      · rename_i v' hv
+        simp only [Outcome.ok.injEq, Prod.mk.injEq] at h
+        obtain ⟨rfl, rfl⟩ := h
+        have h1 := hdec _ _ hv
+        have h2 : K * max 1 (List.take w s).length ≤ K * max 1 s.length :=
+          Nat.mul_le_mul_left K (by simp only [List.length_take]; omega)
+        exact ⟨by omega, by simp⟩
+      · simp at h
+      · simp at h
+  | none =>
+    cases s with
+    | nil => simp at h
+    | cons len rest =>
+      simp only at h
+      split at h
+      · simp at h
+      · split at h
+        · rename_i v' hv
+          simp only [Outcome.ok.injEq, Prod.mk.injEq] at h
+          obtain ⟨rfl, rfl⟩ := h
+          have h1 := hdec _ _ hv
+          have h2 : K * max 1 (List.take len rest).length ≤ K * max 1 (len :: rest).length :=
+            Nat.mul_le_mul_left K (by simp only [List.length_take, List.length_cons]; omega)
+          exact ⟨by omega, by simp; omega⟩
+        · simp at h
+        · simp at h
+
+theorem decodeU32Limbs_size : ∀ (s : List Nat) (vs : List Val), decodeU32Limbs s = .ok vs → Val.sizes vs = s.length
+  | [], vs, h => by simp [decodeU32Limbs] at h; subst h; simp [Val.sizes]
+  | x :: xs, vs, h => by
+    simp only [decodeU32Limbs] at h
+    split at h
+    · split at h
+      · rename_i vs' hvs
+        simp only [Outcome.ok.injEq] at h
+        subst h
+        have := decodeU32Limbs_size xs vs' hvs
+        simp [Val.sizes, Val.size, this]; omega
+      · simp at h
+      · simp at h
+    · simp at h
+
+theorem one_le_max (n : Nat) : 1 ≤ max 1 n := by omega
+
+mutual
+theorem decode_size : ∀ (t : Ty) (s : List Nat) (v : Val), decode t s = .ok v → v.size ≤ t.size * max 1 s.length
+  | .bfe, s, v, h => by
+    simp only [decode] at h
+    split at h <;> simp at h
+    subst h; simp [Val.size, Ty.size]
+  | .u8, s, v, h => by
+    obtain ⟨x, rfl, rfl, _⟩ := decodeSmall_ok (by simpa only [decode] using h); simp [Val.size, Ty.size]
+  | .u16, s, v, h => by
+    obtain ⟨x, rfl, rfl, _⟩ := decodeSmall_ok (by simpa only [decode] using h); simp [Val.size, Ty.size]
+  | .u32, s, v, h => by
+    obtain ⟨x, rfl, rfl, _⟩ := decodeSmall_ok (by simpa only [decode] using h); simp [Val.size, Ty.size]
+  | .bool, s, v, h => by
+    obtain ⟨x, rfl, rfl, _⟩ := decodeSmall_ok (by simpa only [decode] using h); simp [Val.size, Ty.size]
+  | .u64, s, v, h => by
+    obtain ⟨_, _, rfl⟩ := decodeLimbs_ok (by simpa only [decode] using h)
+    simp only [Val.size, Ty.size]; omega
+  | .u128, s, v, h => by
+    obtain ⟨_, _, rfl⟩ := decodeLimbs_ok (by simpa only [decode] using h)
+    simp only [Val.size, Ty.size]; omega
+  | .phantom, s, v, h => by
+    simp only [decode] at h
+    split at h <;> simp at h
+    subst h; simp [Val.size, Ty.size]
+  | .box t, s, v, h => by
+    simp only [decode] at h
+    have := decode_size t s v h
+    simp only [Ty.size, Nat.add_mul]; omega
+  | .option t, s, v, h => by
+    cases s with
+    | nil => simp [decode] at h
+    | cons tag rest =>
+      simp only [decode] at h
+      split at h
+      · split at h <;> simp at h
+        subst h
+        simp only [Val.size, Ty.size, Nat.add_mul, List.length_cons]; omega
+      · split at h
+        · split at h
+          · rename_i v' hv
+            simp only [Outcome.ok.injEq] at h
+            subst h
+            have := decode_size t rest v' hv
+            simp only [Val.size, Ty.size]
+            exact size_step this (by simp only [List.length_cons]; omega) (one_le_max _)
+          · simp at h
+          · simp at h
+        · simp at h
+  | .vec t, s, v, h => by
+    simp only [decode] at h
+    obtain ⟨vs, hvs, rfl⟩ := Outcome.map_eq_ok.1 h
+    have := decodeVec_size _ (staticLength t) t.size (fun c v hc => decode_size t c v hc) s vs hvs
+    simp only [Val.size, Ty.size]
+    exact size_step this (by omega) (one_le_max _)
+  | .array n t, s, v, h => by
+    simp only [decode] at h
+    split at h
+    · simp at h
+    · obtain ⟨vs, hvs, rfl⟩ := Outcome.map_eq_ok.1 h
+      have := decodeList_size _ (staticLength t) t.size (fun c v hc => decode_size t c v hc) n s vs hvs
+      simp only [Val.size, Ty.size]
+      exact size_step this (by omega) (one_le_max _)
+  | .tuple ts, s, v, h => by
+    simp only [decode] at h
+    obtain ⟨vs, hvs, rfl⟩ := Outcome.map_eq_ok.1 h
+    have := (decodeFields_size ts s vs [] (finishFields_eq_ok hvs)).1
+    simp only [Val.size, Ty.size]
+    exact size_step this (Nat.le_refl _) (one_le_max _)
+  | .struct ts, s, v, h => by
+    simp only [decode] at h
+    obtain ⟨vs, hvs, rfl⟩ := Outcome.map_eq_ok.1 h
+    have := (decodeFields_size ts s vs [] (finishFields_eq_ok hvs)).1
+    simp only [Val.size, Ty.size]
+    exact size_step this (Nat.le_refl _) (one_le_max _)
+  | .poly t, s, v, h => by
+    cases s with
+    | nil => simp [decode] at h
+    | cons ind rest =>
+      simp only [decode, List.length_cons] at h
+      split at h
+      · simp at h
+      · split at h
+        · simp at h
+        · split at h
+          · rename_i cs hcs
+            split at h
+            · simp at h
+            · simp only [Outcome.ok.injEq] at h
+              subst h
+              have := decodeVec_size _ (staticLength t) t.size (fun c v hc => decode_size t c v hc) rest cs hcs
+              simp only [Val.size, Ty.size]
+              exact size_step this (by simp only [List.length_cons]; omega) (one_le_max _)
+          · simp at h
+          · simp at h
+  | .u32s n, s, v, h => by
+    simp only [decode] at h
+    split at h
+    · simp at h
+    · split at h
+      · simp at h
+      · split at h
+        · simp at h
+        · obtain ⟨vs, hvs, rfl⟩ := Outcome.map_eq_ok.1 h
+          have := decodeU32Limbs_size s vs hvs
+          simp only [Val.size, Ty.size, this]; omega
+  | .enum vars, s, v, h => by
+    cases s with
+    | nil => simp [decode] at h
+    | cons d rest =>
+      simp only [decode] at h
+      obtain ⟨vs, hvs, rfl⟩ := Outcome.map_eq_ok.1 h
+      have := decodeVariant_size vars d rest vs hvs
+      simp only [Val.size, Ty.size]
+      exact size_step this (by simp only [List.length_cons]; omega) (one_le_max _)
+theorem decodeFields_size : ∀ (ts : List Ty) (s : List Nat) (vs : List Val) (r : List Nat),
+    decodeFields ts s = .ok (vs, r) → Val.sizes vs ≤ Ty.sizes ts * max 1 s.length ∧ r.length ≤ s.length
+  | [], s, vs, r, h => by
+    simp only [decodeFields, Outcome.ok.injEq, Prod.mk.injEq] at h
+    obtain ⟨rfl, rfl⟩ := h
+    simp [Val.sizes]
+  | t :: ts, s, vs, r, h => by
+    simp only [decodeFields] at h
+    split at h
+    · rename_i vs' s' hfs
+      split at h
+      · rename_i v r' hitem
+        simp only [Outcome.ok.injEq, Prod.mk.injEq] at h
+        obtain ⟨rfl, rfl⟩ := h
+        have ih := decodeFields_size ts s vs' s' hfs
+        have hi := decodeItem_size _ (staticLength t) t.size (fun c v hc => decode_size t c v hc) s' v r' hitem
+        have h2 : t.size * max 1 s'.length ≤ t.size * max 1 s.length := Nat.mul_le_mul_left _ (by omega)
+        simp only [Val.sizes, Ty.sizes, Nat.add_mul]
+        exact ⟨by omega, by omega⟩
+      · simp at h
+      · simp at h
+    · simp at h
+    · simp at h
+theorem decodeVariant_size : ∀ (vars : List (List Ty)) (d : Nat) (s : List Nat) (vs : List Val),
+    decodeVariant vars d s = .ok vs → Val.sizes vs ≤ Ty.sizess vars * max 1 s.length
+  | [], d, s, vs, h => by simp [decodeVariant] at h
+  | fs :: rest, d, s, vs, h => by
+    cases d with
+    | zero =>
+      simp only [decodeVariant] at h
+      have := (decodeFields_size fs s vs [] (finishFields_eq_ok h)).1
+      simp only [Ty.sizess, Nat.add_mul]; omega
+    | succ d =>
+      simp only [decodeVariant] at h
+      have := decodeVariant_size rest d s vs h
+      simp only [Ty.sizess, Nat.add_mul]; omega
+end
+
+
 end TF.Codec
